@@ -299,6 +299,28 @@ where
                     let _ = sender.send(Ok(rx_packet));
                 }
             }
+            RxPacket::Pubrec(pubrec) => {
+                let failed = pubrec.reason as u8 >= 0x80;
+                let rx_packet = RxPacket::Pubrec(pubrec);
+                let action_id = utils::rx_action_id(&rx_packet);
+
+                // A PUBREC with a failing reason ends the exchange and frees the slot.
+                if failed && connection.send_quota != connection.remote_receive_maximum {
+                    connection.send_quota += 1;
+                }
+
+                // The PUBLISH is acknowledged either way and must not be sent again.
+                utils::linear_search_by_key(&session.retrasmit_queue, action_id)
+                    .and_then(|pos| session.retrasmit_queue.remove(pos));
+
+                if let Some((_, sender)) =
+                    utils::linear_search_by_key(&session.awaiting_ack, action_id)
+                        .and_then(|pos| session.awaiting_ack.remove(pos))
+                {
+                    // The caller may have dropped the operation's future: that is not an error.
+                    let _ = sender.send(Ok(rx_packet));
+                }
+            }
             RxPacket::Pubrel(pubrel) => {
                 let packet_id = pubrel.packet_identifier;
                 Self::ack::<PubcompReason>(tx, packet_id).await?
